@@ -225,12 +225,25 @@ func genC15(cs *CaseSet, rng *Rng, tier string, dir string) {
 					sub = append(sub, encField(hotline.FieldUserName, name)...)
 					cnt += 2
 					pf, pw := pwField()
+					ha, acc := []byte{1}, rng.Bytes(8)
+					// a PURE rename, as the account editor sends it when only the login was edited: the name and
+					// the access bits are the account's own and the password field is the "unchanged" marker
+					pure := false
+					if from != nil && rng.Bool() {
+						if cur := env.Srv.AccountManager.Get(string(from)); cur != nil {
+							pure = true
+							sub = sub[:len(sub)-len(encField(hotline.FieldUserName, name))]
+							name = []byte(cur.Name)
+							sub = append(sub, encField(hotline.FieldUserName, name)...)
+							pf, pw = []byte{1}, []byte{0}
+							acc = append([]byte{}, cur.Access[:]...)
+						}
+					}
 					if pf[0] == 1 {
 						sub = append(sub, encField(hotline.FieldUserPassword, pw)...)
 						cnt++
 					}
-					ha, acc := []byte{1}, rng.Bytes(8)
-					if rng.Intn(8) == 0 {
+					if rng.Intn(8) == 0 && !pure {
 						ha, acc = []byte{0}, nil
 					} else {
 						sub = append(sub, encField(hotline.FieldUserAccess, acc)...)
